@@ -196,7 +196,7 @@ def run(ctx, chk):
                 why = "source %s, body %s" % (show(src)[:80] if src else "?", [(short(x[0]), [show(a)[:40] for a in x[1]]) for x in body])
             chk.ob("S-extend", "Seq::extend", ok, "extend must push every element of the iterator, in order, and do nothing else; found " + why, b["span"])
             nrows += 1
-        b = an.one(chk, "S-extend", bio, "Extend<A> for Seq", name="extend", trait="std::iter::Extend", self_re=SEQ)
+        b = an.one(chk, "S-extend", bio, "Extend<A> for Seq", name="extend", trait="std::iter::Extend", self_re=SEQ, targ_re=r"^A$")
         if b:
             p, _, _ = uncond(chk, "S-extend", "Extend<A> for Seq", cfg, b)
             if p:
